@@ -45,6 +45,19 @@ pub fn check_volume(obs: &mut Obs, spec: &VolumeSpec, label: &str, case_index: u
         }
         Ok(Ok(s)) => s,
     };
+    // one scan in four is examined through a clone (of the file before, of the scan after)
+    let scan = if case_index % 4 == 1 {
+        obs.count("scans_examined_through_a_clone", 1);
+        match mon::catch(|| file.clone().scan()) {
+            Ok(Ok(s2)) if s2 == scan => s2.clone(),
+            _ => {
+                obs.violation("scan of a cloned file differs from the scan of the file", "", replay);
+                return;
+            }
+        }
+    } else {
+        scan
+    };
     let got: Vec<&nexrad_model::data::Radial> =
         scan.sweeps().iter().flat_map(|s| s.radials().iter()).collect();
     // conservation, identity = unique timestamp
@@ -81,7 +94,8 @@ pub fn check_volume(obs: &mut Obs, spec: &VolumeSpec, label: &str, case_index: u
         return;
     }
     for (i, (g, w)) in got.iter().zip(expected.iter()).enumerate() {
-        if **g != *w {
+        // equal by the model's own `==` *and* equal in everything the accessors report
+        if **g != *w || crate::volgen::radial_fingerprint(g) != crate::volgen::radial_fingerprint(w) {
             obs.violation(
                 "scan alters a radial",
                 format!("radial {}: expected {:?}..., observed {:?}...", i,
@@ -191,6 +205,19 @@ trivial = no radial; distinct = distinct (elevation runs, radial count, record c
         check_volume(obs, &spec, label, i);
         // one volume in five is followed at once by a sibling: same header bytes, same file length,
         // the same records in another order - a different volume that looks the same from outside
+        // two volumes per run (thorough: sixteen) hold everything in ONE record of several
+        // mebibytes - a whole volume scan compressed in one piece, as some archives are written
+        let whole = if thorough { 16 } else { 2 };
+        if i < whole {
+            let p = VolParams { pattern: ElevPattern::Increasing, radials_per_run: (500, 720), max_gates: 1800, meta_density: 200 };
+            let mut big = gen_volume(&mut rng, &p);
+            big.record_starts = vec![0];
+            big.negative_prefix.truncate(1);
+            big.levels.truncate(1);
+            obs.count("volumes_held_in_one_record_of_several_mebibytes", 1);
+            obs.max("largest_record_payload_bytes", big.payloads().first().map(|p| p.len() as u64).unwrap_or(0));
+            check_volume(obs, &big, "whole-volume-in-one-record", i);
+        }
         if i % 5 == 2 {
             if let Some(sib) = spec.with_records_reordered(&mut rng) {
                 obs.count("sibling_volumes_with_the_same_header_and_length", 1);
